@@ -842,8 +842,11 @@ impl<R: Clone + 'static + crate::MemoryEstimator> GlobalCache<R> {
     /// assert_eq!(cache.get("key2"), None);
     /// ```
     pub fn clear(&self) {
+        // One critical section (order queue, then store), so that a concurrent insert cannot
+        // end up stored but unknown to the order queue.
+        let mut order = self.order.lock();
         self.map.write().clear();
-        self.order.lock().clear();
+        order.clear();
     }
 }
 
